@@ -13,6 +13,7 @@ from props import _design
 
 TITLE = "formula-based samplers return only valid sequences"
 LEVEL = "proof"
+DOMAINS = ['Design', 'Compile']
 STRATS = ("CMSGen", "UniGen", "IterateGen", "UniformGen")
 
 
